@@ -23,6 +23,7 @@ def main(tier):
     # statement about 'all worlds and all points', which includes a second world in the same process)
     pure.run(P, rep, pure.query_roots(P))
     rep.explanation = ("Longitude-alias discipline: shape and exclusive use of the alias wrappers, presence of the 2*pi alias in every "
-                       "function of the frozen list of alias-aware sites, and symmetry of the point/alias twin blocks in the ridge-distance "
-                       "routine.")
+                       "function of the frozen list of alias-aware sites, the alias longitude L+-2*pi per half-range, the wrappers as truth "
+                       "tables over their paths, symmetry of the point/alias twin blocks in the ridge-distance routine, and translation "
+                       "invariance of the Cartesian polygon / signed-distance / ellipse kernels by shift-degree abstract interpretation.")
     return rep.finish()
